@@ -91,8 +91,14 @@ def hashOptionsMap : List (String × String) :=
 def preimage (o : Opts) : List Char :=
   o.ctagsPath.toList ++ fmtBool o.cTagsMustSucceed ++ fmtInt o.sizeMax ++ fmtQList o.largeFiles ++ fmtBool o.disableCTags
 
+/-- `GetHash` with the digest as a parameter: `D` stands for `hex ∘ SHA-1` -/
+def getHashWith (D : List Char → String) (o : Opts) : String := D (preimage o)
+
+/-- hex SHA-1 of the UTF-8 bytes -/
+def sha (cs : List Char) : String := Sha1.sha1hex (String.ofList cs).toUTF8.toList
+
 /-- `Options.GetHash()` -/
-def getHash (o : Opts) : String := Sha1.sha1hex (String.ofList (preimage o)).toUTF8.toList
+def getHash (o : Opts) : String := getHashWith sha o
 
 /-! ## MergeMutable -/
 
@@ -146,12 +152,12 @@ inductive Disk where
   deriving Repr
 
 inductive State where
-  | missing | corrupt | version | option | meta | content | equal
+  | missing | corrupt | version | option | metaOnly | content | equal
   deriving DecidableEq, Repr
 
 def State.toString : State → String
   | .missing => "missing" | .corrupt => "corrupt" | .version => "version-mismatch" | .option => "option-mismatch"
-  | .meta => "meta-mismatch" | .content => "content-mismatch" | .equal => "equal"
+  | .metaOnly => "meta-mismatch" | .content => "content-mismatch" | .equal => "equal"
 
 /-- the constants of `readVersions` -/
 structure Versions where
@@ -177,7 +183,7 @@ def indexStateWith (H : Opts → String) (V : Versions) (d : Disk) (o : Opts) : 
       else if repo.branches ≠ o.repo.branches then .content
       else match mergeMutable repo o.repo with
         | .error _ => .content
-        | .ok (true, _) => .meta
+        | .ok (true, _) => .metaOnly
         | .ok (false, _) => .equal
 
 def indexState (V : Versions) (d : Disk) (o : Opts) : State := indexStateWith getHash V d o
